@@ -813,6 +813,47 @@ Theorem solve_multiple_prefix : forall k j evs,
   fst (solve_multiple k evs) = firstn k (fst (solve_multiple (k + j) evs)).
 Proof. intros. apply sm_prefix. Qed.
 
+(** ** A solver that was used before: the stream starts on a table that already holds answers
+
+    [iter_answers] always starts at answer index 0, but the root table may have been filled —
+    partly or completely, with or without strands left — by earlier queries on the same
+    forest.  Nothing above depends on the table being empty: the flag is a function of the
+    stream position (a further valid answer is stored or can still be pulled), not of
+    whether strands remain. *)
+
+Definition resume (t : table) (evs : list event) : sstate := mkS t 0 evs.
+
+Lemma inv_resume : forall t evs, tbl_ok t -> inv (resume t evs).
+Proof. intros t evs H. split; [exact H|]. intros _. cbn. lia. Qed.
+
+Lemma J_resume : forall t evs, tbl_ok t -> J (resume t evs) [].
+Proof.
+  intros t evs H. split; [now apply inv_resume|]. split; [intros y []|]. split; [constructor|intros _ y []].
+Qed.
+
+(** THEOREM (flag_accurate_used): the flags are accurate on ANY well-formed table state,
+    in particular after arbitrary earlier operations ([run_ops]) and with no event (strand)
+    left. *)
+Theorem flag_accurate_used : forall k t evs ys f,
+  tbl_ok t -> sm k (resume t evs) = (ys, f) -> no_panic f ->
+  forall i, S i < k -> i < length ys -> (snd (nth i ys (None, false)) = true <-> S i < length ys).
+Proof. intros k t evs ys f Ht. apply (sm_flags k (resume t evs) ys f (inv_resume t evs Ht)). Qed.
+
+Corollary flag_accurate_after_ops : forall k ops evs ys f,
+  sm k (resume (run_ops ops) evs) = (ys, f) -> no_panic f ->
+  forall i, S i < k -> i < length ys -> (snd (nth i ys (None, false)) = true <-> S i < length ys).
+Proof. intros k ops evs ys f. apply flag_accurate_used. apply (fold_ops_ok ops empty_table tbl_ok_empty). Qed.
+
+Theorem yields_nodup_used : forall k t evs,
+  tbl_ok t ->
+  NoDup (flat_map (fun y : yitem => item_csubs (item_of (fst y))) (fst (sm k (resume t evs)))).
+Proof.
+  intros k t evs Ht. rewrite visible_raws. apply NoDup_visible.
+  destruct (sm_nodup k (resume t evs) [] (J_resume t evs Ht)) as [Hn Hd]. cbn [app] in *.
+  apply (NoDup_map_transfer _ _ _ ta_key csub); [|exact Hn].
+  intros a b Ha Hb E. apply csub_inj; auto.
+Qed.
+
 (** ** Non-vacuity (by computation) *)
 
 Module SlgTableExamples.
@@ -849,6 +890,12 @@ Module SlgTableExamples.
   Example flag_accurate_nonvacuous :
     no_panic (snd (solve_multiple 10 evs)) /\ length (fst (solve_multiple 10 evs)) = 3.
   Proof. split; [intros c H; vm_compute in H; discriminate|vm_compute; reflexivity]. Qed.
+
+  (** a table completely evaluated by an earlier query (no strand = no event left): the
+      second enumeration has the same flags as the first *)
+  Example run_again_on_completed_table :
+    sm 10 (resume (run_ops [OPush a1; OPush ad; OPush a2]) []) = ([(Some a1, true); (Some a2, false)], FComplete).
+  Proof. vm_compute. reflexivity. Qed.
 
   Example push_answer_nodup_nonvacuous :
     map ta_key (t_answers (run_ops [OPush a1; OPush a2; OPush a1; OPush ad])) = [k1; k2; kd].
@@ -1054,7 +1101,22 @@ Definition event_of (c : N) : event :=
 Definition model_run (k : nat) (evcodes : list N) : list N :=
   enc_run (solve_multiple k (map event_of evcodes)).
 
+(** the same on a used solver: [pre] = the answers the root table already holds *)
+Definition table_of (codes : list N) : table :=
+  fold_left (fun t c => match event_of c with
+                        | EvAnswer a => match push_answer t a with OkR (t', _) => t' | PanicR _ => t end
+                        | EvFlounder => mark_floundered t
+                        | _ => t
+                        end) codes empty_table.
+
+Definition model_run_used (k : nat) (pre evcodes : list N) : list N :=
+  enc_run (sm k (resume (table_of pre) (map event_of evcodes))).
+
 Example model_run_example :
   model_run 5 [4; 8; 4; 13; 2]%N = [9; 17; 27; 4; 1]%N /\ model_run 2 [4; 8; 4; 13; 2]%N = [9; 17; 0]%N /\
   model_run 3 [4; 3]%N = [9; 5; 5; 0]%N.
+Proof. repeat split; vm_compute; reflexivity. Qed.
+
+Example model_run_used_example :
+  model_run_used 5 [4; 8; 12]%N [] = [9; 17; 24; 1]%N /\ model_run_used 5 [4; 8]%N [12]%N = [9; 17; 24; 1]%N.
 Proof. repeat split; vm_compute; reflexivity. Qed.
